@@ -2207,6 +2207,8 @@ def run_script(
     tape = Tape(script, callstack_limit=callstack_limit)
     stack = Stack(max_items=stack_max_items, max_item_size=stack_max_item_size)
     cache = {'timestamp': int(time()), **cache_vals}
+    if 'returned' in cache:
+        del cache['returned']
     tape.contracts = {**_contracts, **contracts}
     tape.plugins = {**_plugins, **plugins}
     run_tape(tape, stack, cache, additional_flags=additional_flags)
